@@ -577,7 +577,18 @@ def malformed_table(nd, dims, rng):
     else:
         t += [("rotate90", {"ax1": dims[0], "ax2": dims[0]}),
               ("rotate90", {"ax1": dims[0], "ax2": "y"})]
-    return t
+    # the arguments that are NOT malformed take any legal value - including those for which
+    # the step would be the identity (k a multiple of 4, factor 1): a malformed argument is
+    # malformed whatever the others are
+    out = []
+    for name, kw in t:
+        kw = dict(kw)
+        if name == "rotate90" and "k" not in kw and rng.random() < 0.7:
+            kw["k"] = int(rng.choice([0, 4, -4, 8, 2, -2, 3, -1, 5]))
+        if name == "scale" and "reference_point" in kw and rng.random() < 0.7:
+            kw["factor"] = gen.pick(rng, [1, 1.0, -1, 0.5, [1.0] * nd, [1] * nd])
+        out.append((name, kw))
+    return out
 
 
 def malformed_case(ctx):
